@@ -565,7 +565,7 @@ func (i *Interpreter) ExecuteRoute(route *Route, request *Request) (*Response, e
 	}
 
 	// Bind query params as 'query' object
-	routeEnv.Define("query", queryParams)
+	routeEnv.DefineWithSource("query", queryParams, BindingRequestBuiltin)
 
 	// Also bind declared query params directly as variables
 	for _, decl := range route.QueryParams {
@@ -637,10 +637,10 @@ func (i *Interpreter) ExecuteRoute(route *Route, request *Request) (*Response, e
 				}, err
 			}
 		}
-		routeEnv.Define("input", inputValue)
+		routeEnv.DefineWithSource("input", inputValue, BindingRequestBuiltin)
 	} else {
 		// Define input as nil/empty map for routes without body
-		routeEnv.Define("input", nil)
+		routeEnv.DefineWithSource("input", nil, BindingRequestBuiltin)
 	}
 
 	// Bind request headers as 'headers' object so route handlers can
@@ -650,7 +650,7 @@ func (i *Interpreter) ExecuteRoute(route *Route, request *Request) (*Response, e
 	for k, v := range request.Headers {
 		headersMap[k] = v
 	}
-	routeEnv.Define("headers", headersMap)
+	routeEnv.DefineWithSource("headers", headersMap, BindingRequestBuiltin)
 
 	// Handle dependency injections
 	for _, injection := range route.Injections {
@@ -666,7 +666,7 @@ func (i *Interpreter) ExecuteRoute(route *Route, request *Request) (*Response, e
 		if request.AuthData != nil {
 			authData = request.AuthData
 		}
-		routeEnv.Define("auth", authData)
+		routeEnv.DefineWithSource("auth", authData, BindingRequestBuiltin)
 	}
 
 	// For SSE routes (SSE constant defined in ast.go), inject the writer
